@@ -3,7 +3,9 @@ import RreModel.C17.Spec
 /-
 Driver for C17.
   case := `<U> <K> <op;op;…>`   U, K = comma lists (handles / keys to observe)
-          op := `i<h>:<k>:<p,p,…|->` (insert_proof h under key k with premises) | `x<h>` (invalidate_handle h)
+          op := `i<h>:<k>:<p,p,…|->[:<q,q,…|->]` (insert_proof h under key k with premises; optional fourth
+                field = premise_keys, drawn independently of the premises by the generator, ignored here)
+              | `x<h>` (invalidate_handle h)
   obs  := step;step;…  (one per op)   step := V/P/L
           V = per handle of U: n (no node) | 1 (valid) | 0 (not valid)
           P = per key of K: 1|0 (is_proven)
@@ -21,6 +23,14 @@ def parseOp (s : String) : Option Op :=
       let h ← h.toNat?
       let k ← k.toNat?
       let ps ← parseNats? ps
+      pure (Op.ins h k ps)
+    -- fourth field = the `premise_keys` argument (human-readable tracing only): syntax-checked and
+    -- ignored — neither the model nor the specification may depend on it
+    | [h, k, ps, qs] => do
+      let h ← h.toNat?
+      let k ← k.toNat?
+      let ps ← parseNats? ps
+      let _ ← parseNats? qs
       pure (Op.ins h k ps)
     | _ => none
   else none
